@@ -93,3 +93,32 @@ def run_str(item):
         return (eff, s, before == raw(v) and s == s2)
     except Exception as e:
         return (None, 'EXC ' + type(e).__name__, False)
+
+
+def run_mixed(item):
+    """Rational with a plain int / Fraction operand on either side: (op, left?, x 'n/d', y 'n/d' or int string) -> raw result"""
+    op, other_left, xs, ys = item
+    try:
+        cls = init_class('rational', 0, 0)
+        x = mk(cls, 'rational', xs)
+        if '/' in ys:
+            n, d = ys.split('/'); y = Fraction(int(n), int(d))
+        else:
+            y = int(ys)
+        a, b = (y, x) if other_left else (x, y)
+        if op == 'add': r = a + b
+        elif op == 'sub': r = a - b
+        elif op == 'mul': r = a * b
+        elif op == 'div': r = a / b
+        elif op == 'floordiv': r = a // b
+        elif op == 'mod': r = a % b
+        else: return 'BAD-OP'
+        if raw(x) != raw(mk(cls, 'rational', xs)):
+            return 'OPERAND-MUTATED'
+        if type(r) is not cls:
+            return 'NOT-CLOSED ' + type(r).__name__
+        return raw(r)
+    except ZeroDivisionError:
+        return 'ZeroDivisionError'
+    except Exception as e:
+        return 'EXC ' + type(e).__name__
